@@ -121,6 +121,7 @@ type FnCtx struct {
 	guardSeen map[string]bool
 	scoped    []int // script lines (assumptions) that are dropped after the next loop head
 	alias     map[string]string // recorded name -> current name of the variable in the same position
+	boxed     map[string]boxedInfo // interface terms made from a pointer: what was boxed (see calls.go)
 	freshRefs map[string]bool
 }
 
@@ -326,6 +327,7 @@ func (fc *FnCtx) wf(st *State, v Term, t types.Type) Term {
 			app(SBool, ">=", app(SInt, "sl_off", v), IntLit(0)),
 			app(SBool, ">=", app(SInt, "sl_len", v), IntLit(0)),
 			app(SBool, ">=", app(SInt, "sl_cap", v), app(SInt, "sl_len", v)),
+			app(SBool, "<=", app(SInt, "sl_len", v), IntLit(4294967296)), // collections in memory hold at most 2^32 elements
 			Implies(Eq(app(SInt, "sl_arr", v), IntLit(0)), Eq(app(SInt, "sl_cap", v), IntLit(0))))
 	case *types.Struct:
 		si := fc.TE.Struct(t)
